@@ -200,7 +200,9 @@ def names_api(run, ctx):
     if fn is not None:
         c = H.canon(fn["body"])
         n += 1
-        if not H.pat_match("let {v} = Vec::new(); {v}.resize(self.captures_len(),None); for ({nm},{i}) in self.named_groups {{v}[{i}] = Some({nm})}; CaptureNames({v}.into_iter())", c):
+        forms = ["let {v} = Vec::new(); {v}.resize(self.captures_len(),None); for ({nm},{i}) in self.named_groups {{v}[{i}] = Some({nm})}; CaptureNames({v}.into_iter())",
+                 "let {v} = from_elem(None,self.captures_len()); for ({nm},{i}) in self.named_groups {{v}[{i}] = Some({nm})}; CaptureNames({v}.into_iter())"]
+        if not any(H.pat_match(f_, c) for f_ in forms):
             run.violation(fam, label, "capture_names", H.where(fn), "capture_names must yield captures_len() entries with each name at its group's index, found %s" % c)
     fn = S.get_fn(run, ctx, "Captures::name", fam, label)
     if fn is not None:
